@@ -148,10 +148,88 @@ theorem mem_firstSeqs (bl : List Cmd) (x : String × Nat) (h : x ∈ firstSeqs b
   · cases h'
   · exact h'
 
-/-- Every call of the first loop belongs to one entry of `a`; a partner from `b` has the same peer. -/
+/-- Invariant of `mapPeerToSeq` over the processed prefix `pre` of the ascending numbers. -/
+structure FInv (bl : List Cmd) (pre : List Nat) (acc : List (String × Nat)) : Prop where
+  mem  : ∀ x ∈ acc, x.2 ∈ pre ∧ peerD (grp bl x.2) = x.1
+  low  : ∀ x ∈ acc, ∀ t ∈ pre, peerD (grp bl t) = x.1 → x.2 ≤ t
+  full : ∀ t ∈ pre, ∃ x ∈ acc, x.1 = peerD (grp bl t)
+
+theorem firstSeqs_fold_low (bl : List Cmd) : ∀ (l pre : List Nat) (acc : List (String × Nat)),
+    (pre ++ l).Pairwise (· < ·) → FInv bl pre acc →
+    FInv bl (pre ++ l) (l.foldl (fun acc s =>
+      let p := peerD (grp bl s)
+      if acc.any (fun q => q.1 == p) then acc else acc ++ [(p, s)]) acc) := by
+  intro l
+  induction l with
+  | nil => intro pre acc _ h; simpa using h
+  | cons s ss ih =>
+    intro pre acc hs h
+    simp only [List.foldl_cons]
+    have hs' : ((pre ++ [s]) ++ ss).Pairwise (· < ·) := by simpa using hs
+    have hpre : ∀ t ∈ pre, t < s := by
+      intro t ht
+      have := (List.pairwise_append.mp hs).2.2 t ht s List.mem_cons_self
+      exact this
+    have hstep : FInv bl (pre ++ [s]) (if acc.any (fun q => q.1 == peerD (grp bl s)) then acc
+        else acc ++ [(peerD (grp bl s), s)]) := by
+      by_cases hany : acc.any (fun q => q.1 == peerD (grp bl s)) = true
+      · simp only [hany, if_true]
+        refine ⟨fun x hx => ?_, fun x hx t ht hp => ?_, fun t ht => ?_⟩
+        · exact ⟨List.mem_append_left _ (h.mem x hx).1, (h.mem x hx).2⟩
+        · rcases List.mem_append.mp ht with ht | ht
+          · exact h.low x hx t ht hp
+          · have : t = s := by simpa using ht
+            subst this
+            exact Nat.le_of_lt (hpre _ (h.mem x hx).1)
+        · rcases List.mem_append.mp ht with ht | ht
+          · exact h.full t ht
+          · have : t = s := by simpa using ht
+            subst this
+            obtain ⟨x, hx, hxe⟩ := List.any_eq_true.mp hany
+            exact ⟨x, hx, by simpa using hxe⟩
+      · have hany' : acc.any (fun q => q.1 == peerD (grp bl s)) = false := Bool.eq_false_iff.mpr hany
+        simp only [hany', Bool.false_eq_true, if_false]
+        refine ⟨fun x hx => ?_, fun x hx t ht hp => ?_, fun t ht => ?_⟩
+        · rcases List.mem_append.mp hx with hx | hx
+          · exact ⟨List.mem_append_left _ (h.mem x hx).1, (h.mem x hx).2⟩
+          · have : x = (peerD (grp bl s), s) := by simpa using hx
+            subst this
+            exact ⟨by simp, rfl⟩
+        · rcases List.mem_append.mp hx with hxa | hxa
+          · rcases List.mem_append.mp ht with ht | ht
+            · exact h.low x hxa t ht hp
+            · have hts : t = s := by simpa using ht
+              rw [hts]
+              exact Nat.le_of_lt (hpre _ (h.mem x hxa).1)
+          · have : x = (peerD (grp bl s), s) := by simpa using hxa
+            subst this
+            rcases List.mem_append.mp ht with ht | ht
+            · exfalso
+              obtain ⟨y, hy, hye⟩ := h.full t ht
+              have : acc.any (fun q => q.1 == peerD (grp bl s)) = true :=
+                List.any_eq_true.mpr ⟨y, hy, by simp [hye, hp]⟩
+              rw [hany'] at this; cases this
+            · have : t = s := by simpa using ht
+              subst this; exact Nat.le_refl _
+        · rcases List.mem_append.mp ht with ht | ht
+          · obtain ⟨x, hx, hxe⟩ := h.full t ht
+            exact ⟨x, List.mem_append_left _ hx, hxe⟩
+          · have hts : t = s := by simpa using ht
+            exact ⟨(peerD (grp bl s), s), List.mem_append_right _ (by simp), by rw [hts]⟩
+    have := ih (pre ++ [s]) _ hs' hstep
+    simpa using this
+
+theorem firstSeqs_inv (bl : List Cmd) : FInv bl (seqsOf bl) (firstSeqs bl) := by
+  have := firstSeqs_fold_low bl (seqsOf bl) [] [] (by simpa using seqsOf_sorted bl)
+    ⟨(fun x hx => by cases hx), (fun x hx => by cases hx), (fun t ht => by cases ht)⟩
+  simpa [firstSeqs] using this
+
+/-- Every call of the first loop belongs to one entry of `a`; a partner from `b` has the same peer
+and is the lowest entry of `b` with that peer. -/
 def PeerCall (al bl : List Cmd) (l : List Nat) (c : Call) : Prop :=
   ∃ s ∈ l, c.aIdx = idxFrom s 0 al ∧
-    ∀ q, c.bSeq = some q → q ∈ seqsOf bl ∧ peerD (grp bl q) = peerD (grp al s)
+    ∀ q, c.bSeq = some q → q ∈ seqsOf bl ∧ peerD (grp bl q) = peerD (grp al s) ∧
+      ∀ t ∈ seqsOf bl, peerD (grp bl t) = peerD (grp al s) → q ≤ t
 
 theorem matchFold_peer (al bl : List Cmd) (all : List Nat) : ∀ (l : List Nat) (acc : List Call × List Nat),
     (∀ s ∈ l, s ∈ all) → (∀ c ∈ acc.1, PeerCall al bl all c) →
@@ -186,7 +264,8 @@ theorem matchFold_peer (al bl : List Cmd) (all : List Nat) : ∀ (l : List Nat) 
           have hm := mem_firstSeqs bl q (List.mem_of_find?_eq_some hfind)
           have hp := List.find?_some hfind
           have : q.1 = peerD (grp al s) := by simpa using hp
-          exact ⟨hm.1, by rw [hm.2, this]⟩
+          exact ⟨hm.1, by rw [hm.2, this], fun t ht hp =>
+            (firstSeqs_inv bl).low q (List.mem_of_find?_eq_some hfind) t ht (by rw [hp, this])⟩
       · exact hnone
     · exact hnone
 
